@@ -122,7 +122,7 @@ fn check_lookup_ops(ctx: &mut Ctx, api: &str, id: u64, off: u64, len: u32, ops: 
 }
 
 pub fn run(ctx: &mut Ctx) {
-    let n = ctx.n(480, 10_000);
+    let n = ctx.n(480, 50_000);
     for i in 0..n {
         if !ctx.mine(i) {
             continue;
